@@ -41,6 +41,10 @@ def go_cmd(rng, legal, slow=False):
         if rng.random() < 0.5: g += f" movestogo {rng.choice([1, 5, 40])}"
     elif r < 0.93: g = f"go mate {rng.randrange(1, 4)} depth 6"
     else: g = "go infinite"
+    # (ponder only with time-based limits: depth/node limits are dropped by startPonder and not re-installed by ponderhit,
+    #  so such a search runs until `stop` — noted in DESIGN.md, outside this property)
+    if not slow and rng.random() < 0.25 and ("movetime" in g or "wtime" in g):
+        g = g.replace("go ", "go ponder ", 1)      # released by `ponderhit` in session()
     return g + sm
 
 
@@ -57,7 +61,13 @@ def session(args):
         for fen, go in jobs:
             stop_after = 0.05 if "infinite" in go else None
             try:
-                out = eng.go(f"position fen {fen}", go, timeout=120, stop_after=stop_after)
+                if " ponder " in go:
+                    eng.send(f"position fen {fen}"); eng.send(go)
+                    import time as _t; _t.sleep(0.03)
+                    eng.send("ponderhit")
+                    out = eng.read_until(lambda l: l.startswith("bestmove"), 120)
+                else:
+                    out = eng.go(f"position fen {fen}", go, timeout=120, stop_after=stop_after)
             except (uci.EngineDied, TimeoutError) as e:
                 recs.append({"fen": fen, "go": go, "opts": opts, "error": str(e)[:400], "transcript": eng.transcript[-40:]})
                 return recs
